@@ -2,7 +2,7 @@
 from .c11seq import Model, PRIMS, HALF, recipe
 from .common import muted
 
-KINDS = ['drv_prim_prim', 'drv_same_leaf_twice', 'drv_same_block_twice', 'drv_wrap_then_outside', 'drv_outside_then_wrap',
+KINDS = ['disc_prim_then_drive', 'disc_struct_then_drive', 'disc_unrelated', 'drv_prim_prim', 'drv_same_leaf_twice', 'drv_same_block_twice', 'drv_wrap_then_outside', 'drv_outside_then_wrap',
          'drv_leaf_then_block', 'drv_block_then_leaf', 'drv_two_ports_one_leaf', 'drv_inout', 'drv_interface',
          'dup_child', 'dup_wire', 'dup_wires', 'dup_rename', 'dup_reparent', 'dup_reparent_rename',
          'dup_iface_plain_first', 'dup_iface_twice', 'dup_iface_cross', 'dup_iface_then_plain']
@@ -27,7 +27,16 @@ def probe(src, entry, cfg):
         with muted():
             ins, outs = recipe(src, entry).build(hw, cfg, mk)
         _PROBE[key] = (seq, [byid[id(x)] for x in ins], [byid[id(x)] for x in outs])
+        _PRIM[key] = hw.children['d'].isPrimitive()
     return _PROBE[key]
+
+
+_PRIM = {}
+
+
+def probe_prim(src, entry, cfg):
+    probe(src, entry, cfg)
+    return _PRIM[(src, entry, repr(cfg))]
 
 
 def block_pool(tier):
@@ -132,7 +141,7 @@ class Gen:
             bind.update(bind_outs)
         new = dict((n, self.fresh('W')) for n, _ in seq if n not in bind)
         return dict(op='cat', cid=self.fresh('C'), scope=scope or self.scope(), name=name or self.fresh('b'), src=src, entry=entry,
-                    cfg=cfg, mkseq=seq, outs=outs, bind=bind, new=new)
+                    cfg=cfg, mkseq=seq, outs=outs, insn=ins, prim=probe_prim(src, entry, cfg), bind=bind, new=new)
 
     def wrap_op(self, scope=None, name=None, target=None, depth=1, width=None, ins=None):
         width = width or self.width()
@@ -205,6 +214,8 @@ class Gen:
                 if w['name'] in self.m.wire_names[to] and to != w['scope']:
                     to = w['scope']
                 self.emit(dict(op='reparent', wid=wid, to=to))
+        elif r < 0.94:
+            self.bg_disconnect()
         else:
             iid = self.iface()
             for _ in range(self.rnd.randrange(1, 4)):
@@ -216,6 +227,39 @@ class Gen:
                     self.emit(dict(op='ifleaf', cid=self.fresh('C'), scope=self.scope(), name=self.fresh('u'), iid=iid,
                                    prefix=self.rnd.choice(['', 'p']), role=role))
 
+    def prim_drivers(self):
+        """(wid, cid) pairs: ordinary wire whose registered driver is the own out port of a live primitive child"""
+        out = []
+        for wid in self._ord():
+            d = self.m.wires[wid]['driver']
+            if isinstance(d, tuple) and d[0] in self.m.children and self.m.children[d[0]]['prim'] and wid in self.m.children[d[0]]['outs']:
+                out.append((wid, d[0]))
+        return out
+
+    def disc_op(self, wid, cid):
+        op = dict(op='disconnect', wid=wid, cid=cid)
+        # a catalogue block lives inside its container: aim at the block itself
+        if any(o.get('cid') == cid and o['op'] == 'cat' for o in self.ops):
+            op['inner'] = True
+        return op
+
+    def bg_disconnect(self):
+        q = self.rnd.random()
+        pd = self.prim_drivers()
+        if q < 0.5 and pd:
+            wid, cid = self.rnd.choice(pd)
+            self.emit(self.disc_op(wid, cid))            # release the wire ...
+            if self.rnd.random() < 0.7:                  # ... and give it a new driver
+                self.emit(self.leaf_op(width=self.m.wires[wid]['width'], outs=[wid]))
+        else:
+            readers = [(w, cid) for cid, c in self.m.children.items() if c['prim'] for w in c['ins']
+                       if self.m.wires[w]['kind'] == 'wire' and self.m.wires[w]['driver'] != HALF]
+            if readers:
+                wid, cid = self.rnd.choice(readers)
+                self.emit(self.disc_op(wid, cid))
+            else:
+                self.new_wire()
+
     # ------------------------------------------------------------ fault groups (faulty=False: same ops, fresh names)
     def driven_by_leaf(self, width=None):
         c = [k for k in self._ord(width) if isinstance(self.m.wires[k]['driver'], tuple)]
@@ -224,6 +268,66 @@ class Gen:
         op = self.leaf_op(width=width)
         self.emit(op)
         return op['outs'][0]
+
+    def g_disc_prim_then_drive(self, f):
+        """driver released by disconnect, second driver accepted; a third one (f) must be refused"""
+        a = self.leaf_op(cls=self.rnd.choice(['Buf', 'Not', 'And2', 'Constant', 'Reg', 'HLeaf', 'Mux2']))
+        self.emit(a)
+        x = a['outs'][0]
+        w = self.m.wires[x]['width']
+        self.emit(self.disc_op(x, a['cid']))
+        self.emit(self.leaf_op(width=w, outs=[x]))
+        self.emit(self.leaf_op(width=w, outs=[x if f else self.free_wire(w, 1.0)]))
+        return 1
+
+    def g_disc_struct_then_drive(self, f):
+        """the out port of a STRUCTURAL block sits on x (driver is a primitive inside): disconnecting the block is refused,
+        the source stays, and the next driver on x is refused as well.  twin: disconnect the inner primitive-free way is not
+        possible, so the twin aims the disconnect at a primitive driver and the new driver is accepted"""
+        k = self.rnd.choice(['wrap', 'wrap', 'leaf', 'cat'])
+        if not f:
+            a = self.leaf_op(cls=self.rnd.choice(['Buf', 'Not', 'Or2', 'HLeaf']))
+            self.emit(a)
+            x = a['outs'][0]
+            self.emit(self.disc_op(x, a['cid']))
+            self.emit(self.leaf_op(width=self.m.wires[x]['width'], outs=[x]))
+            return 0
+        if k == 'wrap':
+            a = self.wrap_op(depth=self.rnd.randrange(1, 4))
+            x = a['outs'][0]
+        elif k == 'leaf':
+            a = self.leaf_op(cls=self.rnd.choice(sorted(['Nand2', 'Nor2', 'Xor2'])))
+            x = a['outs'][0]
+        else:
+            for _ in range(200):
+                blk = self.rnd.choice(self.pool)
+                if not probe_prim(*blk) and probe(*blk)[2]:
+                    break
+            a = self.cat_op(blk=blk)
+            o = self.rnd.choice(a['outs'])
+            x = a['bind'].get(o) or a['new'][o]
+        self.emit(a)
+        self.emit(self.disc_op(x, a['cid']))
+        if self.rnd.random() < 0.3:
+            self.background()
+        self.emit(self.leaf_op(width=self.m.wires[x]['width'], outs=[x]))
+        return 2
+
+    def g_disc_unrelated(self, f):
+        """disconnecting an object that neither drives nor reads the wire is refused and changes nothing"""
+        x = self.driven_by_leaf()
+        w = self.m.wires[x]['width']
+        other = self.leaf_op(width=w, ins=None, outs=[self.free_wire(w, 1.0)])
+        other['ins'] = [i for i in other['ins'] if i != x] or []
+        if other['cls'] != 'HLeaf' and len(other['ins']) != PRIMS.get(other['cls'], 0):
+            other = self.leaf_op(cls='Constant', width=w, outs=other['outs'])
+        self.emit(other)
+        if f:
+            self.emit(self.disc_op(x, other['cid']))
+        else:
+            y = other['outs'][0]
+            self.emit(self.disc_op(y, other['cid']))
+        return 1
 
     def g_drv_prim_prim(self, f):
         x = self.driven_by_leaf()
@@ -420,12 +524,13 @@ def make_plan(rnd, pool, kind, faulty):
     g = Gen(rnd, pool)
     for _ in range(rnd.randrange(0, 7)):
         g.background()
-    getattr(g, 'g_' + kind)(faulty)
+    want = getattr(g, 'g_' + kind)(faulty)
+    want = (1 if want is None else want) if faulty else 0
     for _ in range(rnd.randrange(0, 4)):
         g.background()
     if any(e is None for e in g.exp):
         return None
     nf = sum(1 for e in g.exp if e)
-    if nf != (1 if faulty else 0):
+    if nf != want:
         return None
     return g.ops, nf
